@@ -149,3 +149,62 @@ CONTRACTS["model:Model.build#databook_values"] = dict(
          "len(par.vals) == len(series) and all((par.vals[i] == min(max(series[i] * par.scale_factor, par.limits[0]), par.limits[1])) if par.limits is not None else (par.vals[i] == series[i] * par.scale_factor) for i in range(len(series)))"),
     ],
     defined_props=["C06"])
+
+
+# ---- Parameter.set_dynamic on a dependency chain  C = g(B),  B = f(A),  A overwritten by a program (C06: a function of a
+# program-targeted parameter must be re-evaluated during integration, at every level of the chain)
+def _env_chain(targeted):
+    def make(it):
+        from pyvc.interp import PyObjV
+        from pyvc import source
+
+        mm = source.load("model")
+
+        def par(name, fcn, deps):
+            return PyObjV("Parameter", mm, {"id": ("pop", name), "fcn_str": fcn, "_is_dynamic": False, "_precompute": False, "pop_aggregation": None, "derivative": False, "deps": deps})
+
+        A = par("A", None, None)
+        B = par("B", "A*2", {"A": [A]})
+        C = par("C", "B+1", {"B": [B]})
+        progset = PyObjV("ProgramSet", source.load("programs"), {"pars": {"A": {"label": "A"}} if targeted else {}})
+        return {"self": C, "progset": progset, "A": A, "B": B, "C": C}
+
+    return make
+
+
+CONTRACTS["model:Parameter.set_dynamic#chain_below_a_program_target"] = dict(
+    schema=schema, make_env=_env_chain(True),
+    ensures=[("C06.function_of_a_program_target_is_dynamic_at_every_level", "B._is_dynamic and C._is_dynamic and not B._precompute and not C._precompute"),
+             ("C06.the_target_itself_is_left_alone", "not A._is_dynamic and not A._precompute")],
+    defined_props=["C06"], targeted=True)
+CONTRACTS["model:Parameter.set_dynamic#chain_without_programs"] = dict(
+    schema=schema, make_env=_env_chain(False),
+    ensures=[("C06.function_of_databook_parameters_only_is_precomputed", "B._precompute and C._precompute and not B._is_dynamic and not C._is_dynamic")],
+    defined_props=["C06"], targeted=False)
+
+
+def _replay_chain(model, contract):
+    """replay on REAL Parameter objects (built without a population) and a stand-in program set"""
+    import atomica.model as am
+
+    def par(name, fcn, deps):
+        p = object.__new__(am.Parameter)
+        p.id, p.fcn_str, p._is_dynamic, p._precompute, p.pop_aggregation, p.derivative, p.deps = ("pop", name), fcn, False, False, None, False, deps
+        return p
+
+    A = par("A", None, None)
+    B = par("B", "A*2", {"A": [A]})
+    C = par("C", "B+1", {"B": [B]})
+    progset = type("PS", (), {})()
+    progset.pars = {"A": {"label": "A"}} if contract["targeted"] else {}
+    C.set_dynamic(progset=progset)
+    state = {n: dict(dynamic=bool(p._is_dynamic), precompute=bool(p._precompute)) for n, p in (("A", A), ("B", B), ("C", C))}
+    if contract["targeted"]:
+        ok = state["B"]["dynamic"] and state["C"]["dynamic"] and not state["B"]["precompute"] and not state["C"]["precompute"]
+    else:
+        ok = state["B"]["precompute"] and state["C"]["precompute"]
+    return dict(verdict="holds" if ok else "violates", detail="flags after C.set_dynamic(progset): %r" % state, prestate=dict(chain="C = g(B), B = f(A)", program_targets=list(progset.pars)))
+
+
+for _k in ("model:Parameter.set_dynamic#chain_below_a_program_target", "model:Parameter.set_dynamic#chain_without_programs"):
+    CONTRACTS[_k]["replay_hook"] = _replay_chain
